@@ -266,8 +266,12 @@ def _const_of(prog, term, f=None):
     return None
 
 
+def _norm_enc(v):
+    return str(v).lower().replace("_", "-").replace("utf8", "utf-8")
+
+
 def r14_5(prog, rep):
-    encs = {}
+    encs: dict = {}
     for q, f in prog.functions.items():
         if not (q.startswith(C.SERDES) or q.startswith("typelib.unmarshals.routines")):
             continue
@@ -280,10 +284,11 @@ def r14_5(prog, rep):
                 if c[1][0] == "attr" and c[1][2] in ("encode", "decode") and c[1][1][0] != "ref":
                     arg = c[2][0] if c[2] else dict(c[3]).get("encoding")
                     v = _const_of(prog, arg, f)
-                    encs[(q, c[1][2])] = (v, f.loc)
-    vals = {str(v[0]).lower().replace("_", "-").replace("utf8", "utf-8") for v in encs.values()}
-    for (q, kind), (v, loc) in sorted(encs.items()):
-        rep.check(v is not None and len(vals) == 1, "R14.5", q, loc, f".{kind}() uses {v!r}, the one encoding of these paths", f".{kind}() uses {v!r} while other sites use {sorted(vals)}: text would be read back in another encoding", detail=kind)
+                    encs.setdefault((q, c[1][2]), (set(), f.loc))[0].add(v)
+    vals = {_norm_enc(v) for (vs, _) in encs.values() for v in vs}
+    for (q, kind), (vs, loc) in sorted(encs.items()):
+        shown = sorted(map(str, vs))
+        rep.check(None not in vs and len(vals) == 1, "R14.5", q, loc, f".{kind}() uses {shown}, the one encoding of these paths", f".{kind}() uses {shown} while the sites together use {sorted(vals)}: the same text is read differently depending on its carrier (e.g. a leading U+FEFF survives in a str but is stripped from bytes)", detail=kind)
 
 
 def run(prog: Program, rep: Report, tier: str):
